@@ -1506,7 +1506,10 @@ func (s *TreeShapeListener) ExitParams(*parser.ParamsContext) {
 		type1 := s.typemap[fieldname]
 		switch t := type1.Type.(type) {
 		case *sysl.Type_Set:
-			t.Set.GetTypeRef().Context = nil
+			// a set of a primitive has no type reference to clear
+			if ref := t.Set.GetTypeRef(); ref != nil {
+				ref.Context = nil
+			}
 			t.Set.SourceContext = nil //nolint:staticcheck
 			t.Set.SourceContexts = nil
 		case *sysl.Type_TypeRef:
